@@ -121,6 +121,12 @@ func FuzzC11Args(f *testing.F) {
 		fuzzImgOnce.Do(buildFuzzImage)
 		proc := uint32(in[0]) % 22
 		args := in[1:]
+		if hugeLengthWord(args) {
+			// an undecodable message whose length prefix makes the XDR library allocate gigabytes before it
+			// notices: outside the property (not well-formed), and fatal for sixteen fuzz workers at once
+			St.Class("inputs_with_a_huge_length_word_skipped")
+			return
+		}
 		d := NewDiskFrom(fuzzImgSize, fuzzImg)
 		d.SetRecord(false)
 		s := StartSrv(d, true, false)
